@@ -34,7 +34,8 @@ def cases(rng, tier):
             if n < 2:
                 x = [Fraction(0), Fraction(3)]
                 n = 2
-        yield {"x": [str(v) for v in x], "y": [str(v) for v in rng.values(n)], "r": rng.randint(1, 12),
+        yield {"argrep": S.pick_argrep(rng, 0.7),
+               "x": [str(v) for v in x], "y": [str(v) for v in rng.values(n)], "r": rng.randint(1, 12),
                "int": integer, "via": rng.choice(["process", "weaver"]), "a": rng.randint(1, 4), "b": rng.randint(1, 3)}
 
 
@@ -119,12 +120,13 @@ def run_impl(c):
     x, y = V(c)
     xa = S.arr([int(v) for v in x]) if c["int"] else S.arr(floats(x))
     ya = S.arr(floats(y))
+    R = S.count(c["r"], c.get("argrep", "plain"), narrow=False)      # the count as int, numpy.int64 / int32, a 0-d array (the pinned code overflows with int8 counts)
     try:
         if c["via"] == "process":
-            rx, ry = repeat(xa, ya, c["r"])
+            rx, ry = repeat(xa, ya, R)
             ref = None
         else:
-            w = Weaver(xa, ya).repeat(c["r"])
+            w = Weaver(xa, ya).repeat(R)
             rx, ry = w.get()
             ref = [[float(v) for v in s] for s in w.get_reference()]
         ax, ay = repeat(xa, ya, c["a"])
